@@ -1,8 +1,289 @@
-//! C16 — see /verif/DESIGN.md §3.
-use vf_core::{Args, Ctx};
+//! C16 — layout builders and overflow splitting preserve glyph-level lookup
+//! semantics. See /verif/DESIGN.md §3 "C16".
+//!
+//! * coverage / class-def builders: glyph sets of every density -> builder ->
+//!   bytes -> read-fonts, every glyph id in a sweep answers like the set;
+//! * PairPos / MarkBasePos: rule sets -> write-fonts builders -> owned lookups
+//!   -> Gpos -> dump_table (format choice, subtable splitting, extension
+//!   promotion, repacking) -> read-fonts, with a two-stage oracle:
+//!   rules vs owned tables, owned tables vs compiled bytes.
+
+mod covclass;
+mod gen;
+mod gpos_case;
+mod model;
+mod plan;
+mod walk;
+
+use gen::*;
+use gpos_case::CaseSpec;
+use vf_core::{Args, Ctx, PanicPolicy, Rng, Tier};
 
 pub const REPLAY: Option<fn(&mut Ctx, &Args, &serde_json::Value, Option<&[u8]>)> = None;
 
+fn group(n_c1: usize, n_c2: usize, g1: usize, g2: usize, density: u64, rng: &mut Rng) -> GroupSpec {
+    GroupSpec {
+        n_c1,
+        n_c2,
+        g_per_c1: g1,
+        g_per_c2: g2,
+        density_pct: density,
+        style1: rng.usize(3) as u8,
+        style2: rng.usize(3) as u8,
+    }
+}
+
+fn small_pair(rng: &mut Rng) -> PairSpec {
+    let n_groups = *rng.pick(&[0usize, 0, 1, 1, 2, 3]);
+    let groups = (0..n_groups)
+        .map(|_| {
+            let (a, b) = (1 + rng.usize(8), 1 + rng.usize(8));
+            let (g1, g2) = (1 + rng.usize(5), 1 + rng.usize(5));
+            let d = *rng.pick(&[30u64, 60, 100]);
+            group(a, b, g1, g2, d, rng)
+        })
+        .collect::<Vec<_>>();
+    let n_first = if n_groups > 0 && rng.chance(1, 4) { 0 } else { 1 + rng.usize(30) };
+    PairSpec {
+        n_first,
+        per_first: 1 + rng.usize(12),
+        first_shape: rng.usize(3) as u8,
+        n_tp: 1 + rng.usize(4),
+        dev_mode: *rng.pick(&[0u8, 0, 0, 1, 2, 3, 4, 5]),
+        dev_pct: *rng.pick(&[30u64, 100]),
+        pool: 4 + rng.usize(40),
+        dup_pct: *rng.pick(&[0u64, 5, 20]),
+        groups,
+        mix_pct: *rng.pick(&[0u64, 0, 30]),
+    }
+}
+
+fn small_mark(rng: &mut Rng) -> MarkSpec {
+    MarkSpec {
+        n_classes: 1 + { let m__ = *rng.pick(&[2usize, 6, 20]); rng.usize(m__) },
+        marks_per_class: 1 + rng.usize(4),
+        n_bases: 1 + rng.usize(25),
+        anchor_pct: *rng.pick(&[40u64, 80, 100]),
+        dev_mode: rng.usize(6) as u8,
+        special_pct: *rng.pick(&[0u64, 30, 100]),
+        mark_shape: rng.usize(3) as u8,
+    }
+}
+
+/// The workload: the same list for every shard; shard i takes items i mod n.
+/// Heavy items come first so that they spread evenly over the shards.
+fn scenarios(tier: Tier, seed: u64) -> Vec<CaseSpec> {
+    let mut v: Vec<CaseSpec> = vec![];
+    let thorough = tier.is_thorough();
+    let budget = tier.pick(1_500_000usize, 6_000_000);
+    let mut rng = Rng::derive(seed, "c16-scenarios", 0);
+    let mut push = |v: &mut Vec<CaseSpec>, kind: &str, lookups: Vec<LookupSpec>, rng: &mut Rng| {
+        let index = v.len();
+        v.push(CaseSpec {
+            kind: kind.to_string(),
+            index,
+            lookups,
+            flip: rng.chance(1, 3),
+            budget,
+        });
+    };
+    // scale of the heavy cases: multiples of the 64 KiB limit
+    let rounds = tier.pick(1usize, 4);
+    for round in 0..rounds {
+        let k = if thorough { 1 + round } else { 1 }; // size multiplier
+        // ---- PairPos format 1 needs splitting
+        for (shape, n_tp, dev_mode, dev_pct) in [(1u8, 1usize, 0u8, 0u64), (0, 1, 0, 0), (2, 3, 0, 0), (1, 2, 2, 25), (0, 1, 4, 15), (2, 1, 1, 50)] {
+            let n_first = (150 + rng.usize(250)) * k;
+            let per_first = 40 + rng.usize(80);
+            let mut s = PairSpec::glyph_only(n_first, per_first);
+            s.first_shape = shape;
+            s.n_tp = n_tp;
+            s.dev_mode = dev_mode;
+            s.dev_pct = dev_pct;
+            s.dup_pct = 1;
+            push(&mut v, "pairpos1-big", vec![LookupSpec::Pair(vec![s])], &mut rng);
+        }
+        // ---- PairPos format 2 needs splitting
+        for (dev_mode, dev_pct, n_groups) in [(0u8, 0u64, 1usize), (0, 0, 2), (1, 40, 1), (4, 20, 1), (5, 30, 2), (0, 0, 1)] {
+            let groups = (0..n_groups)
+                .map(|_| {
+                    let n1 = (60 + rng.usize(100)) * k.min(2);
+                    let n2 = 60 + rng.usize(100) * k.min(2);
+                    let (g1, g2) = (1 + rng.usize(4), 1 + rng.usize(4));
+                    let d = *rng.pick(&[35u64, 70, 100]);
+                    group(n1, n2, g1, g2, d, &mut rng)
+                })
+                .collect();
+            let s = PairSpec {
+                n_first: *rng.pick(&[0usize, 20, 200]),
+                per_first: 10,
+                first_shape: rng.usize(3) as u8,
+                n_tp: *rng.pick(&[1usize, 2, 3]),
+                dev_mode,
+                dev_pct,
+                pool: 60,
+                dup_pct: 2,
+                groups,
+                mix_pct: 40,
+            };
+            push(&mut v, "pairpos2-big", vec![LookupSpec::Pair(vec![s])], &mut rng);
+        }
+        // ---- MarkBasePos needs splitting
+        for (n_classes, dev_mode, special) in [(40usize, 0u8, 0u64), (120, 0, 10), (200, 5, 20), (16, 2, 60), (80, 3, 30), (200, 0, 0)] {
+            let n_bases = (20000 * k / n_classes).clamp(40, 700) + rng.usize(40);
+            let s = MarkSpec {
+                n_classes,
+                marks_per_class: 1 + rng.usize(6),
+                n_bases,
+                anchor_pct: *rng.pick(&[60u64, 90, 100]),
+                dev_mode,
+                special_pct: special,
+                mark_shape: rng.usize(3) as u8,
+            };
+            push(&mut v, "markbase-big", vec![LookupSpec::Mark(vec![s])], &mut rng);
+        }
+        // ---- several lookups, none too big alone: promotion to extension
+        for variant in 0..4 {
+            let mut lookups = vec![];
+            let n = 3 + rng.usize(4);
+            for j in 0..n {
+                if (j + variant) % 3 == 2 {
+                    let mut m = small_mark(&mut rng);
+                    m.n_classes = 10 + rng.usize(20);
+                    m.n_bases = 100 + rng.usize(100);
+                    lookups.push(LookupSpec::Mark(vec![m]));
+                } else {
+                    let mut s = PairSpec::glyph_only(80 + rng.usize(80), 30 + rng.usize(30));
+                    s.first_shape = rng.usize(3) as u8;
+                    s.dev_mode = if variant == 3 { 5 } else { 0 };
+                    s.dev_pct = 20;
+                    s.n_tp = 1 + rng.usize(2);
+                    if variant >= 2 {
+                        let (a, b) = (20 + rng.usize(30), 20 + rng.usize(30));
+                        s.groups.push(group(a, b, 2, 2, 80, &mut rng));
+                        s.mix_pct = 20;
+                    }
+                    lookups.push(LookupSpec::Pair(vec![s]));
+                }
+            }
+            push(&mut v, "multi-lookup", lookups, &mut rng);
+        }
+        // ---- everything at once: split subtables in several lookups + promotion
+        for variant in 0..4 {
+            let mut lookups = vec![];
+            let mut s = PairSpec::glyph_only((200 + rng.usize(150)) * k, 50 + rng.usize(50));
+            s.first_shape = variant as u8 % 3;
+            s.n_tp = 2;
+            let (a, b) = (70 + rng.usize(60), 70 + rng.usize(60));
+            let b2 = PairSpec {
+                n_first: 30,
+                per_first: 8,
+                first_shape: 1,
+                n_tp: 2,
+                dev_mode: if variant % 2 == 1 { 5 } else { 0 },
+                dev_pct: 25,
+                pool: 40,
+                dup_pct: 0,
+                groups: vec![group(a, b, 3, 2, 75, &mut rng)],
+                mix_pct: 30,
+            };
+            lookups.push(LookupSpec::Pair(vec![s, b2]));
+            let m = MarkSpec {
+                n_classes: 60 + rng.usize(100),
+                marks_per_class: 3,
+                n_bases: 250 + rng.usize(100),
+                anchor_pct: 85,
+                dev_mode: if variant >= 2 { 5 } else { 0 },
+                special_pct: 15,
+                mark_shape: 1,
+            };
+            let m2 = small_mark(&mut rng);
+            lookups.push(LookupSpec::Mark(vec![m, m2]));
+            lookups.push(LookupSpec::Pair(vec![small_pair(&mut rng)]));
+            push(&mut v, "kitchen-sink", lookups, &mut rng);
+        }
+    }
+    if thorough {
+        // ---- the far end of the quantifier: several hundred thousand glyph-pair rules
+        for (n_first, per_first) in [(1500usize, 70usize), (2500, 60), (4000, 50), (3000, 130)] {
+            let mut s = PairSpec::glyph_only(n_first, per_first);
+            s.first_shape = rng.usize(3) as u8;
+            s.n_tp = 1 + rng.usize(2);
+            s.pool = per_first * 3;
+            push(&mut v, "pairpos1-huge", vec![LookupSpec::Pair(vec![s])], &mut rng);
+        }
+    }
+    // ---- medium cases that fit without any graph surgery
+    for _ in 0..tier.pick(24, 120) {
+        let mut lookups = vec![];
+        for _ in 0..1 + rng.usize(2) {
+            if rng.chance(1, 3) {
+                let mut m = small_mark(&mut rng);
+                m.n_bases = 20 + rng.usize(60);
+                lookups.push(LookupSpec::Mark(vec![m]));
+            } else {
+                let mut s = small_pair(&mut rng);
+                s.n_first = 20 + rng.usize(60);
+                s.per_first = 5 + rng.usize(25);
+                s.pool = 60;
+                lookups.push(LookupSpec::Pair(vec![s]));
+            }
+        }
+        push(&mut v, "medium", lookups, &mut rng);
+    }
+    // ---- many small cases: builder grouping policy, precedence, duplicates
+    for _ in 0..tier.pick(400, 4000) {
+        let mut lookups = vec![];
+        for _ in 0..1 + rng.usize(3) {
+            if rng.chance(1, 3) {
+                let n = 1 + rng.usize(2);
+                lookups.push(LookupSpec::Mark((0..n).map(|_| small_mark(&mut rng)).collect()));
+            } else {
+                let n = 1 + rng.usize(2);
+                lookups.push(LookupSpec::Pair((0..n).map(|_| small_pair(&mut rng)).collect()));
+            }
+        }
+        push(&mut v, "small", lookups, &mut rng);
+    }
+    // ---- the smallest: ten rules
+    for _ in 0..tier.pick(16, 64) {
+        let s = PairSpec::glyph_only(2 + rng.usize(3), 2 + rng.usize(3));
+        push(&mut v, "tiny", vec![LookupSpec::Pair(vec![s])], &mut rng);
+    }
+    v
+}
+
 pub fn run(ctx: &mut Ctx, _args: &Args) {
-    ctx.rule = "stub".into();
+    ctx.policy = PanicPolicy::Any;
+    ctx.level = "exploration".into();
+    ctx.rule = "a GPOS rule set is non-trivial if it compiled and either its compiled form needed subtable \
+                splitting or extension promotion, or it has >= 100 rules (digest: case label, seed, rule count, \
+                compiled size); a coverage/class-def glyph set is non-trivial if it has >= 3 glyphs and was \
+                compiled and swept (digest: builder path + the glyph set)"
+        .into();
+    ctx.assumptions = vec![
+        "first-match semantics as implemented by the reference walker: PairPos format 1 applies only if the pair set has the second glyph, format 2 applies as soon as coverage matches; MarkBasePos falls through on a null base anchor".into(),
+        "stage 1 (rules vs builder output) runs on rule sets whose class-1 classes are disjoint across class subtables (verified per case); stage 2 (owned vs compiled) has no such restriction".into(),
+        "value records / anchors are compared by what they denote (absent field = 0 / no device); differences in explicit-zero vs absent fields are only counted".into(),
+        "variation-index records: the VariationStoreBuilder's remapping is taken as given (only injectivity is checked)".into(),
+    ];
+    let t0 = std::time::Instant::now();
+    covclass::run(ctx);
+    let cov_s = t0.elapsed().as_secs_f64();
+    let scen = scenarios(ctx.tier, ctx.seed);
+    let only: Option<String> = std::env::var("VF_C16_ONLY").ok();
+    for s in &scen {
+        if !ctx.mine(s.index) {
+            continue;
+        }
+        if let Some(o) = &only {
+            if !s.kind.contains(o.as_str()) {
+                continue;
+            }
+        }
+        gpos_case::run_case(ctx, s);
+    }
+    if std::env::var("VF_C16_VERBOSE").is_ok() {
+        eprintln!("covclass {:.1}s, total {:.1}s", cov_s, t0.elapsed().as_secs_f64());
+    }
 }
